@@ -296,6 +296,11 @@ class World:
     def build(self, max_rounds=6):
         if not self.gen:
             self.generate()
+        # one builder per world name at a time (concurrent checks share names such as "faithful")
+        with vlib.Lock("world-" + self.name):
+            return self._build(max_rounds)
+
+    def _build(self, max_rounds=6):
         key = self._key()
         self.dir = os.path.join(WORLD_ROOT, "%s-%s" % (self.name, key))
         marker = os.path.join(self.dir, "built.json")
